@@ -299,10 +299,18 @@ class Ctx:
         return out
 
     def go_test_build(self, pkg_dir_in_repo, out=None, tags="verif"):
-        """Build a test binary of a /repo package with overlay-added _test.go files (in-package drivers)."""
+        """Build a test binary of a /repo package with overlay-added _test.go files (in-package
+        drivers).  An alternate go.mod (-modfile, in scratch) lets those files import the harness
+        module; /repo itself is not touched."""
         out = out or os.path.join(self.scratch, pkg_dir_in_repo.replace("/", "_") + ".test")
         ov = write_overlay(self.scratch)
-        cmd = ["go", "test", "-c", "-vet=off", "-tags", tags, "-overlay", ov, "-o", out, "./" + pkg_dir_in_repo]
+        mf = os.path.join(self.scratch, "alt.mod")
+        with open(os.path.join(REPO, "go.mod")) as fh:
+            mod = fh.read()
+        with open(mf, "w") as fh:
+            fh.write(mod + "\nrequire verif.local/harness v0.0.0\n\nreplace verif.local/harness => %s\n" % HARNESS)
+        shutil.copy(os.path.join(REPO, "go.sum"), os.path.join(self.scratch, "alt.sum"))
+        cmd = ["go", "test", "-c", "-vet=off", "-tags", tags, "-overlay", ov, "-modfile", mf, "-o", out, "./" + pkg_dir_in_repo]
         p = subprocess.run(cmd, cwd=REPO, env=goenv(), stdout=subprocess.PIPE, stderr=subprocess.STDOUT, text=True)
         if p.returncode != 0:
             raise Inconclusive("go test -c %s failed:\n%s" % (pkg_dir_in_repo, p.stdout[-4000:]))
@@ -321,31 +329,63 @@ class Ctx:
             raise Inconclusive("driver timeout: %s %s" % (binary, " ".join(args)))
         return p
 
-    def exec_scenarios(self, binary, scen, name, timeout=900, extra_args=(), env=None):
-        """Write scenarios (one JSON object per line), run `<binary> exec <scen> <trace>`, return
-        the recorded traces.  A crash of the real code (Go panic / runtime fatal error) is an
-        observation: the trace of the scenario that was running gets a final Crash event."""
-        sp = os.path.join(self.scratch, name + ".scen.jsonl")
-        tp = os.path.join(self.scratch, name + ".trace.ndjson")
-        with open(sp, "w") as fh:
-            for s in scen:
-                fh.write(json.dumps(s) + "\n")
-        if os.path.exists(tp):
-            os.unlink(tp)
-        p = self.run_driver(binary, ["exec", sp, tp] + list(extra_args), timeout=timeout, env=env)
-        if p.returncode != 0:
-            crashed = ("fatal error" in p.stderr or "panic:" in p.stderr or "goroutine " in p.stderr)
-            if not crashed or not os.path.exists(tp):
-                raise Inconclusive("driver failed (rc %d): %s" % (p.returncode, p.stderr[-3000:]))
-            traces = split_traces(read_ndjson(tp, tolerant=True))
-            if not traces:
-                raise Inconclusive("driver crashed before the first scenario: " + p.stderr[-2000:])
-            first = [ln for ln in p.stderr.strip().splitlines() if ln.strip()][:1]
-            traces[-1]["events"].append({"event": "Crash", "text": (first[0] if first else "")[:300]})
-            traces[-1]["crashed"] = True
-            self.notes.append("%s: driver crashed in scenario %s: %s" % (name, traces[-1]["id"], first))
-            return traces
-        return split_traces(read_ndjson(tp))
+    def exec_scenarios(self, binary, scen, name, timeout=900, extra_args=(), env=None, testbin=None, shards=1):
+        """Write scenarios (one JSON object per line), run the driver on them, return the recorded
+        traces (in scenario order).  binary: a harness command (`<binary> exec <scen> <trace>`);
+        testbin=<test name>: binary is an overlay-built test binary of a /repo package, driven through
+        VERIF_SCEN / VERIF_TRACE.  shards>1 runs that many driver processes in parallel.
+        A crash of the real code (Go panic / runtime fatal error) is an observation: the trace of the
+        scenario that was running gets a final Crash event."""
+        import concurrent.futures as cf
+        shards = max(1, min(shards, len(scen)))
+        parts = [scen[i::shards] for i in range(shards)]
+
+        def one(idx):
+            part = parts[idx]
+            sp = os.path.join(self.scratch, "%s.%d.scen.jsonl" % (name, idx))
+            tp = os.path.join(self.scratch, "%s.%d.trace.ndjson" % (name, idx))
+            with open(sp, "w") as fh:
+                for s in part:
+                    fh.write(json.dumps(s) + "\n")
+            if os.path.exists(tp):
+                os.unlink(tp)
+            if testbin:
+                e = dict(env or {})
+                e.update(VERIF_SCEN=sp, VERIF_TRACE=tp)
+                p = self.run_driver(binary, ["-test.run", "^" + testbin + "$", "-test.timeout", "%ds" % timeout] + list(extra_args),
+                                    timeout=timeout + 30, env=e)
+            else:
+                p = self.run_driver(binary, ["exec", sp, tp] + list(extra_args), timeout=timeout, env=env)
+            err = p.stderr + ("\n" + p.stdout if testbin else "")
+            if p.returncode != 0:
+                crashed = ("fatal error" in err or "panic:" in err or "goroutine " in err)
+                if not crashed or not os.path.exists(tp):
+                    raise Inconclusive("driver failed (rc %d): %s" % (p.returncode, err[-3000:]))
+                traces = split_traces(read_ndjson(tp, tolerant=True))
+                if not traces:
+                    raise Inconclusive("driver crashed before the first scenario: " + err[-2000:])
+                first = [ln for ln in err.strip().splitlines() if "panic" in ln or "fatal error" in ln][:1]
+                traces[-1]["events"].append({"event": "Crash", "text": (first[0] if first else "")[:300]})
+                traces[-1]["crashed"] = True
+                self.notes.append("%s: driver crashed in scenario %s: %s" % (name, traces[-1]["id"], first))
+                # scenarios after the crash were not executed: run them in a fresh process
+                rest = part[len(traces):]
+                if rest:
+                    parts.append(rest)
+                    traces += one(len(parts) - 1)
+                return traces
+            return split_traces(read_ndjson(tp))
+
+        if shards == 1:
+            return one(0)
+        with cf.ThreadPoolExecutor(max_workers=shards) as ex:
+            res = list(ex.map(one, range(shards)))
+        out = []
+        for r in res:
+            out += r
+        order = {s.get("id"): i for i, s in enumerate(scen)}
+        out.sort(key=lambda t: order.get(t["id"], 1 << 30))
+        return out
 
     # ------------------------------------------------------------- verdicts
     def classify(self, tr, devmatch):
